@@ -78,6 +78,25 @@ LongCases(n) ==
    /\ \A fn \in RefFns : P(CaseRec("long", fn, <<GridX(fn, "f32", <<n>>, 0)>>, MustValue(<<GridY(fn, "f32", <<n>>, 0)>>),
                                   "ulp:" \o ToString(UlpOf(fn, 0, GridLen(fn))), <<"value", "f32", "long">>, <<>>))
 
+\* tiling law (Outcome.tla): the flagged operands are repeated beyond a million elements by the harness
+LookupT(fn, X) == T(X.dt, X.shape, [k \in 1..Len(X.data) |-> OrdOrNaN(Lookup(fn, X.data[k].n))])       \* grid arguments only
+TileEmit(fam, op, ins, a, cmp, feat, S, Sem(_)) ==
+   TileLaw(Sem, ins, S) => P(CaseRec(fam, op, [i \in 1..Len(ins) |-> LowerT(ins[i])], LowerA(a), cmp, feat \o <<"tile_law">>, <<>>) @@ [tile |-> TileField(S)])
+TileCases ==
+   /\ \A dt \in {"f32", "i64"}, sh \in {<<3>>, <<3, 2>>, <<5, 1, 2>>} :
+         LET X == CatT(dt, sh, 2) IN TileEmit("tile", "Abs", <<X>>, SemAbs(X), "bits", <<"value", dt>>, {1}, LAMBDA ins : SemAbs(ins[1]))
+   /\ \A dt \in {"f32", "f64"}, sh \in {<<3>>, <<3, 2>>} :
+         LET X == CatT(dt, sh, 4) IN TileEmit("tile", "Relu", <<X>>, SemRelu(X), "num", <<"value", dt>>, {1}, LAMBDA ins : SemRelu(ins[1]))
+   /\ LET X == T("bool", <<3, 2>>, <<TRUE, FALSE, FALSE, TRUE, TRUE, TRUE>>) IN TileEmit("tile", "Not", <<X>>, SemNot(X), "num", <<"value", "bool">>, {1}, LAMBDA ins : SemNot(ins[1]))
+   /\ \A dt \in {"f32", "i64"} : \A v \in {<<<<3, 2>>, <<2>>, {1}>>, <<<<3>>, <<3>>, {1, 2}>>, <<<<3>>, <<1>>, {1}>>, <<<<3, 2>>, <<3, 1>>, {1, 2}>>} :
+         LET X == T(dt, v[1], [k \in 1..Size(v[1]) |-> Fin(((k * 7) % 23) - 11)])
+             S == T(dt, v[2], [k \in 1..Size(v[2]) |-> IF k % 3 = 0 THEN Fin(3) ELSE Fin(-2)])
+         IN TileEmit("tile", "PRelu", <<X, S>>, SemPRelu(X, S), "num", <<"value", dt>>, v[3], LAMBDA ins : SemPRelu(ins[1], ins[2]))
+   /\ \A fn \in RefFns : \A off \in {0, 40} :
+         LET X == GridX(fn, "f32", <<7>>, off) IN
+         TileLaw(LAMBDA ins : MustValue(<<LookupT(fn, ins[1])>>), <<X>>, {1}) =>
+            P(CaseRec("tile", fn, <<X>>, MustValue(<<LookupT(fn, X)>>), "ulp:" \o ToString(UlpOf(fn, off, 7)), <<"value", "f32", "tile_law">>, <<>>) @@ [tile |-> TileField({1})])
+
 Init ==
    \/ ("long" \in Fams /\ st \in [fam : {"long"}, n : LongSizes, done : {FALSE}])
    \/ ("exact" \in Fams /\ st \in [fam : {"exact"}, shape : Shapes, done : {FALSE}])
@@ -87,7 +106,7 @@ Init ==
 Emit ==
    /\ ~st.done
    /\ CASE st.fam = "exact" -> ExactCases(st.shape)
-        [] st.fam = "long" -> LongCases(st.n)
+        [] st.fam = "long" -> LongCases(st.n) /\ TileCases
         [] st.fam = "prelu" -> PReluCases(st.a, st.b) /\ (st.a = <<>> /\ st.b = <<>> => \A dt \in FloatTypes, off \in 0..13 : PReluSpecial(dt, off))
         [] st.fam = "table" -> TableCases(st.fn, st.shape)
         [] st.fam = "tablefull" -> TableFull(st.fn)
